@@ -54,6 +54,8 @@ try:
         cmd = "go run ./zz_seed_demo"
     else:
         res["error"] = "cannot derive demo command from meta.demo: " + demo[:300]; raise SystemExit
+    if pid == "C36":
+        cmd = cmd.replace("go test ", "go test -race ").replace("-timeout 300s", "-timeout 600s")
     res["demo_cmd"] = cmd
     rc1, out1 = sh(cmd)
     res["demo_fails_with_change"] = rc1 != 0 and "[build failed]" not in out1 and "[setup failed]" not in out1
